@@ -63,7 +63,11 @@ def run_jaqal_circuit(circuit, backend=None, force_sim=False, emulator_backend=N
 
         backend = UnitarySerializedEmulator()
 
-    expanded = expand_macros(fill_in_let(expand_subcircuits(circuit)))
+    try:
+        expanded = expand_macros(fill_in_let(expand_subcircuits(circuit)))
+    except RecursionError:
+        # The passes descend recursively into macro calls and alias chains
+        raise JaqalError("The program's macros or aliases are nested too deeply")
     return backend(expanded).execute()
 
 
